@@ -17,6 +17,8 @@ type c21 struct{}
 
 func init() { engine.Register(c21{}) }
 
+func (c21) PostGenerate(r *engine.Rand, sc *engine.Scenario) { chooseEnv(r, sc) }
+
 func (c21) ID() string { return "C21" }
 
 func (c21) Budget(tier string) int {
@@ -106,7 +108,7 @@ func (c21) Execute(sc *engine.Scenario) *engine.Result {
 		return res
 	}
 	m.Write(0xff40, 0)
-	m.Park()
+	park(sc, m, res)
 	r := engine.NewRand(uint64(sc.P("dseed", 1)))
 	ch := int(sc.P("ch", 1))
 	m.Write(0xff26, 0x00)
